@@ -232,7 +232,12 @@ func (x *planExec) execGroup(op *Op) {
 	if op.Sched != nil {
 		spec = *op.Sched
 	}
+	aside0 := w.setAside
 	segs := w.RunConcurrent(fns, spec, est)
+	if d := w.setAside - aside0; d > 0 {
+		// a task really blocked (channel, WaitGroup, lock outside repo code) and was set aside until released
+		x.out.Stats.Faults["task-set-aside-while-blocked"] += d
+	}
 	x.out.Segments[op.ID] = segs
 	x.out.Stats.Schedules = append(x.out.Stats.Schedules, Digest(fmt.Sprint(segs)))
 	x.out.Stats.Faults["sched-"+spec.Strategy]++
